@@ -272,7 +272,7 @@ theorem JA_init (U : List Msg) (k K n : Nat) (causal : Bool) : JA U k K (init n 
   ⟨J_init U k K n causal, by intro sn hsn; cases hsn⟩
 
 theorem absorbed_eq_carried (c : Cluster) (i k : Nat) :
-    absorbed c i k = (carriedOf c i k).map RV.strip := by
+    absorbed c i k = (carriedOf c.log i k).map RV.strip := by
   simp only [absorbed, carriedOf, List.map_map]
   induction c.log with
   | nil => rfl
